@@ -77,7 +77,7 @@ _REG = {}
 
 
 def _build():
-    from .oracles import c01, c02, c03, c06, c07, c09, c10, c13, c15
+    from .oracles import c01, c02, c03, c06, c07, c09, c10, c13, c14, c15
 
     _REG["C02"] = seq_spec(
         "C02",
@@ -247,6 +247,23 @@ def _build():
         world_kw={"bw_bias": 1.0},
         assumptions=["Pulse.fall_time of the real code is a trusted input (both bandwidth readings accepted for 'ramped down')", "the emulator clause (drift-corrected populations) is decided by the EMU-SIM scenario part of this check"],
         expected_probes=["eom_pulse", "block_with_nonzero_off_detuning", "off_detuning_choice", "eom_buffer_detuned", "eom_buffer_plain", "enable_waited_for_fall", "disable_custom_buffer", "disable_waited_for_fall"],
+    )
+
+    _REG["C14"] = seq_spec(
+        "C14",
+        "exploration",
+        "seeded SEQ-SIM runs on channels with generated modulation / EOM bandwidths; the observer requests modulated sampling on every kind of intermediate state (empty channels, open EOM blocks, extended durations); every scheduled pulse's amplitude is re-modulated with a 4x rise-time padding to expose the tail the implementation truncates; cache flushes between computations; non-trivial = >=2 pulse tails measured and >=1 modulated observation; distinct = distinct concrete op traces",
+        A.make_profile(
+            w_observer=0.8,
+            observers={"obs_str": 0.2, "obs_sample": 6, "obs_duration": 0.5, "obs_estimate": 0.5, "obs_phase_ref": 0.1, "obs_props": 0.1, "obs_abstract": 0.1, "obs_legacy": 0.1, "obs_draw": 0.0},
+            w_fault=0.4,
+            fault_kinds={"bad": 1, "restart": 1, "cache": 4},
+        ),
+        lambda: [c14.C14()],
+        nontrivial_fn=c14.nontrivial,
+        world_kw={"bw_bias": 0.9},
+        assumptions=["NOT decided here (pure filter algebra over arbitrary inputs, no state/order/fault in it): linearity for arbitrary sample pairs, the 'tone at the bandwidth is halved' law, tail bound for waveforms that never occur in generated programs, tail of the detuning output", "Channel.apply_modulation of the real code is the filter under test; Pulse.fall_time is the accounted fall time"],
+        expected_probes=["tail_with_end_buffer", "separated_pulses_checked", "modulated_sampling_with_empty_channel", "fall_time_recomputed_after_cache_fault", "superposition_checked"],
     )
 
 
